@@ -135,19 +135,21 @@ class ExactAlgorithmCplex(ExactAlgorithmBase, PairwiseBasedAlgorithm):
                 # with this time the boolean set to False to prevent the useless computation of scc
                 # (and infinite loop obviously)
                 else:
-                    # update the ranking to return. The rankings that rank no element of the sub-problem are kept
-                    # (as empty rankings): they count in the cost of the pairs of the sub-problem
-                    new_dataset: Dataset = dataset.sub_problem_from_ids(scc_i_set, keep_empty_rankings=True)
+                    # update the ranking to return. The sub-problem is expressed with the int ids of the elements, not
+                    # with their names: a Dataset normalises the names it receives (names that are all integer-like
+                    # become int, and "007" and "7" would then be the same element). The rankings that rank no
+                    # element of the sub-problem are kept (as empty rankings): they count in the cost of its pairs
+                    ids_elements: Dict[Element, int] = dataset.mapping_elem_id
+                    new_dataset: Dataset = Dataset([
+                        Ranking([{Element(ids_elements[element]) for element in bucket
+                                  if ids_elements[element] in scc_i_set}
+                                 for bucket in ranking
+                                 if any(ids_elements[element] in scc_i_set for element in bucket)])
+                        for ranking in dataset.rankings])
                     rankings: List[Ranking] = self._compute_consensus_rankings_with_optim(new_dataset, scoring_scheme,
                                                                                           False, True)
-                    # the elements of the sub-problem may have another type than in the dataset (names that are all
-                    # integer-like become int in the sub-problem): the dataset's own elements are written back
-                    elements_by_name = {str(id_elements[id_elem]): id_elements[id_elem] for id_elem in scc_i_set}
-                    # a name such as "007" is read back as 7 from a sub-problem of int elements
-                    elements_by_name.update({str(int(name)): elem for name, elem in list(elements_by_name.items())
-                                             if name.isdecimal() and str(int(name)) not in elements_by_name})
                     for bucket in rankings[0]:
-                        ranking.append({elements_by_name[str(element)] for element in bucket})
+                        ranking.append({id_elements[element.value] for element in bucket})
             return [Ranking(ranking)]
 
         # else, no more recursive calls to do, single problem to solve
